@@ -2,8 +2,8 @@
 //verif:use store,kv,corehelp,purgehelp
 //verif:stub openKV vOpenKV
 //verif:assume purge drivers end to end (PurgeBuildReverseIndex, PurgeDeleteUnused with scanContext, repoKeysScanner, bundleKeys, uploader, chunkUploader, copyIndexChunks, loadChunk, scanBlob, checkAndDeleteKey; errgroup from source) over in-memory stores; openKV (which opens the on-disk pebble/badger store) is routed to the in-memory KV model in symbolic runs, the native replay runs the real pebble store; progress tickers never fire; blob update times come from the store clock
-//verif:assume world: repository r with two committed bundles sharing a file (uploaded through the real code, real cafs), the blobs of a third bundle that was deleted (old, unreferenced), and a bundle uploaded after the index was built; index chunk size 1..3 keys (thorough also 1000), purge parallelism 1..2
-//verif:cover VerifC14PurgeE2E several-chunks orphans-deleted
+//verif:assume world: repository r with two committed bundles sharing a file (or the second bundle in a second repository r2 of the same context, so that there are more repositories than scanner slots at parallelism 1) (uploaded through the real code, real cafs), the blobs of a third bundle that was deleted (old, unreferenced), and a bundle uploaded after the index was built; index chunk size 1..3 keys (thorough also 1000), purge parallelism 1..2
+//verif:cover VerifC14PurgeE2E several-chunks orphans-deleted two-repositories
 package core
 
 import (
